@@ -15,6 +15,7 @@ def run(ctx):
     netprops.op_level(ctx, res, PROP, ctx.budget(120, 4000, 400))
     netprops.run_scenarios(ctx, res, netprops.scenario_streams, ctx.budget(150, 6000, 500), "streams-cb", with_callbacks=True)
     netprops.run_scenarios(ctx, res, netprops.scenario_cut, ctx.budget(60, 2000, 200), "cut")
+    netprops.process_level_multichannel(ctx, res, ngw=2 if not ctx.thorough else 3)
     return res
 
 
